@@ -326,3 +326,82 @@ def ret_expr(fn, out):
             break
         e = vf.expr(fn, inc[0])
     return e
+
+
+# ---------------------------------------------------------------- list walks
+def walk_loops(fn, next_field):
+    """loops that walk a linked list through `next_field`: [{'phi', 'body', 'steps': [leaf exprs the cursor continues with],
+    'exits': [(branch inst, truth taken, target block id)]}]"""
+    out = []
+    for h, body in fn.loops().items():
+        for phi in fn.blocks[h].insts:
+            if phi.op != "phi":
+                break
+            cur = ("phi", phi.id)
+
+            def expand(e, seen=()):
+                """all expressions `e` can stand for when the merge points inside it (phis other than the cursor) are resolved"""
+                if not isinstance(e, tuple):
+                    return [e]
+                if e[0] == "phi" and e != cur:
+                    if e[1] in seen or len(seen) > 3:
+                        return [e]
+                    return [x for vv, bb in fn.insts[e[1]]["inc"] for x in expand(vf.expr(fn, vv), seen + (e[1],))]
+                if e == cur or e[0] in ("c", "arg", "alloca", "g", "null"):
+                    return [e]
+                outs = [()]
+                for part in e:
+                    alts = expand(part, seen) if isinstance(part, tuple) else [part]
+                    outs = [o + (a,) for o in outs for a in alts][:16]
+                return outs
+            steps = [x for v, b in phi["inc"] if b in body for x in expand(vf.expr(fn, v))]
+            if not any(vf.mentions(x, lambda y: y == ("fld", cur, next_field)) for x in steps):
+                continue
+            exits = []
+            for b in sorted(body):
+                t = fn.blocks[b].term
+                if t.op == "br" and "cond" in t.d:
+                    for truth, tgt in ((True, t["t"]), (False, t["f"])):
+                        if tgt not in body:
+                            exits.append((t, truth, tgt))
+                elif t.op == "br":
+                    for tgt in fn.blocks[b].succs:
+                        if tgt not in body:
+                            exits.append((t, None, tgt))
+            out.append({"phi": phi, "cur": cur, "body": body, "steps": steps, "exits": exits})
+    return out
+
+
+def edge_facts(fn, br, truth):
+    """Guards-style relation facts established by taking one outcome of a conditional branch"""
+    g = Guards.__new__(Guards)
+    g.fn, g.rel, g.truth = fn, set(), []
+    if truth is not None:
+        g._add(vf.expr(fn, br["cond"]), truth)
+    return g
+
+
+def fails_only(fn, start_block):
+    """every way from `start_block` to a return hands back a negative constant (an error exit)"""
+    rets = fn.rets()
+    seen, work, ok = set(), [(start_block, None)], True
+    reached = False
+    while work:
+        b, pred = work.pop()
+        B = fn.blocks[b]
+        for r in rets:
+            if r.block.id == b:
+                reached = True
+                e = vf.expr(fn, r["val"]) if "val" in r.d else None
+                if e is not None and e[0] == "phi" and fn.insts[e[1]].block.id == b and pred is not None:
+                    inc = [vf.expr(fn, v) for v, pb in fn.insts[e[1]]["inc"] if pb == pred]
+                    e = inc[0] if len(inc) == 1 else None
+                if not (e is not None and e[0] == "c" and isinstance(e[1], int) and e[1] < 0):
+                    ok = False
+        if (b, pred) in seen:
+            continue
+        seen.add((b, pred))
+        for s_ in B.succs:
+            if (s_, b) not in seen:
+                work.append((s_, b))
+    return reached and ok
